@@ -384,6 +384,10 @@ def main(argv=None):
     ap.add_argument("--scale", type=float, default=float(os.environ.get("VERIF_SCALE", "1")))
     ap.add_argument("--no-evidence", action="store_true")
     args = ap.parse_args(argv)
+    try:
+        signal.signal(signal.SIGPIPE, signal.SIG_DFL)  # `./check X | head` must not end in a traceback
+    except (AttributeError, ValueError):
+        pass
     prop = args.prop.upper()
     try:
         seed = int(os.environ.get("VERIF_SEED", "1"))
